@@ -164,6 +164,8 @@ fn parse_modifiers(exprs: &[Option<ExprOrSpread>]) -> BTreeSet<Atom> {
 
 fn parse_v_text_directive(jsx_attr: &JSXAttr) -> Directive {
     let expr = match &jsx_attr.value {
+        // the raw text of a JSX string is not a JavaScript string literal: keep the value only
+        Some(JSXAttrValue::Lit(Lit::Str(str))) => Expr::Lit(Lit::Str(quote_str!(str.value.clone()))),
         Some(JSXAttrValue::Lit(lit)) => Expr::Lit(lit.clone()),
         Some(JSXAttrValue::JSXExprContainer(JSXExprContainer {
             expr: JSXExpr::Expr(expr),
@@ -196,6 +198,8 @@ fn parse_v_text_directive(jsx_attr: &JSXAttr) -> Directive {
 
 fn parse_v_html_directive(jsx_attr: &JSXAttr) -> Directive {
     let expr = match &jsx_attr.value {
+        // the raw text of a JSX string is not a JavaScript string literal: keep the value only
+        Some(JSXAttrValue::Lit(Lit::Str(str))) => Expr::Lit(Lit::Str(quote_str!(str.value.clone()))),
         Some(JSXAttrValue::Lit(lit)) => Expr::Lit(lit.clone()),
         Some(JSXAttrValue::JSXExprContainer(JSXExprContainer {
             expr: JSXExpr::Expr(expr),
